@@ -1,6 +1,7 @@
 ---------------------------- MODULE Trace_Codegen ----------------------------
 (* C03: the value every generated implementation computed for every tree, against the exact value TLC derives. *)
 EXTENDS Trees, TraceIO, LoggerObs, KnownFindings
+CONSTANT Mode     \* "C03": values; "C17": declared structure and helper functions
 VARIABLE l
 Init == l = 1
 BadEqs(ev) == {i \in DOMAIN ev.eqs : LET q == ev.eqs[i] IN ~(q.expect = Eval(q.tree, Envs[ev.env]) /\ q.okC /\ q.okPy /\ q.agree)}
@@ -11,11 +12,27 @@ Problems(ev) ==
     \cup (IF ev.builtPy THEN {} ELSE {"generated Python does not run"})
     \cup (IF BadEqs(ev) = {} THEN {} ELSE {"generated code computes a wrong value"})
     \cup (IF LogCoherent(ev.alog) THEN {} ELSE {"incoherent issue list"})
+\* ---------------------------------------------------------------- C17: helper functions exactly when the equations use them
+OpsOf(ev) == UNION {Ops(ev.eqs[i].tree) : i \in DOMAIN ev.eqs}
+HelperOfC == [xor |-> "xor", min |-> "min", max |-> "max", sec |-> "sec", sech |-> "sech", arcsec |-> "asec", arcsech |-> "asech"]
+HelperOfPy == [eq |-> "eq_func", neq |-> "neq_func", lt |-> "lt_func", leq |-> "leq_func", gt |-> "gt_func", geq |-> "geq_func", and |-> "and_func", or |-> "or_func",
+               xor |-> "xor_func", not |-> "not_func", min |-> "min", max |-> "max", sec |-> "sec", sech |-> "sech", arcsec |-> "asec", arcsech |-> "asech"]
+NeededC(ev) == {HelperOfC[o] : o \in OpsOf(ev) \cap DOMAIN HelperOfC}
+NeededPy(ev) == {HelperOfPy[o] : o \in OpsOf(ev) \cap DOMAIN HelperOfPy}
+StructProblems(ev) ==
+    (IF Range(ev.helpersC) = NeededC(ev) THEN {} ELSE {"C helper functions are not emitted exactly when the equations use them"})
+    \cup (IF Range(ev.helpersPy) = NeededPy(ev) THEN {} ELSE {"Python helper functions are not emitted exactly when the equations use them"})
+    \cup (IF ev.builtC /\ ev.cStruct.diag = "" THEN {} ELSE {"generated C does not compile cleanly"})
+    \cup (IF ev.builtPy THEN {} ELSE {"generated Python does not load"})
+    \cup (IF ev.cStruct.variableCount = ev.neqs + 3 /\ ev.pyVariableCount = ev.neqs + 3 THEN {} ELSE {"VARIABLE_COUNT differs from the number of variables"})
+    \cup (IF Range(ev.cStruct.declared) \subseteq Range(ev.cStruct.defined) /\ Len(ev.cStruct.defined) = Cardinality(Range(ev.cStruct.defined)) THEN {} ELSE {"a function declared in the interface is not defined exactly once"})
+    \cup (IF ev.cStruct.infoFits THEN {} ELSE {"an info string does not fit its declared buffer"})
 First(ev) == LET i == CHOOSE k \in BadEqs(ev) : TRUE IN <<ev.eqs[i].tree, ev.eqs[i].expect, ev.eqs[i].obsC, ev.eqs[i].okC, ev.eqs[i].okPy>>
 Next == /\ l <= Len(TraceLog) /\ l' = l + 1
         /\ LET ev == TraceLog[l] IN
            IF ev.e = "Reset" THEN TRUE
            ELSE IF ev.e # "values" THEN Verdict("bad", l, ev.sc, <<ev.e>>)
+           ELSE IF Mode = "C17" THEN (IF StructProblems(ev) = {} THEN TRUE ELSE Verdict("bad", l, ev.sc, <<StructProblems(ev), ev.helpersC, ev.helpersPy, OpsOf(ev), ev.cStruct.diag>>))
            ELSE IF Problems(ev) = {} THEN TRUE
            ELSE Verdict("bad", l, ev.sc, <<Problems(ev), ev.env, IF BadEqs(ev) # {} THEN First(ev) ELSE <<>>, Cardinality(BadEqs(ev))>>)
 Spec == Init /\ [][Next]_l
